@@ -131,6 +131,58 @@ def keys_job(job):
             s.close()
 
 
+def mouse_job(job):
+    """a batch of mouse interactions (SGR encoding): press at P1, optional drag to P2, release at P3; wheel events"""
+    args, inters = job
+    res = dict(evals=0, nt=0, counters={})
+    s = None
+    lines = ["line %d" % i for i in range(120)]
+    try:
+        for it in inters:
+            if s is None:
+                s = P.Session(["--multi"] + list(args), lines, rows=24, cols=80)
+                x, ok = s.wait_loaded(len(lines))
+                if not ok:
+                    res["inconclusive"] = "not loaded"
+                    return res
+            data = b""
+            for (b, x_, y_, press) in it:
+                data += b"\x1b[<%d;%d;%d%s" % (b, x_, y_, b"M" if press else b"m")
+            s.keys(data)
+            res["evals"] += 1
+            time.sleep(0.02)
+            s.pump(0.005)
+            if s.alive():
+                try:
+                    x = s.get()
+                except ConnectionError:
+                    x = None
+                if x is None and s.alive():
+                    x, ok = s.wait_state(lambda x: True, 30.0)
+                    if not ok and s.alive():
+                        res["violation"] = ("mouse:unresponsive", {"args": list(args), "interaction": [list(e) for e in it]})
+                        return res
+                if s.alive():
+                    continue
+            code = s.wait_exit(5.0)
+            okc, tail = clean_text(s)
+            left = s.screen.modes - {7, 25}
+            after = s.termios_now()
+            res["nt"] += 1
+            if code not in (0, 1, 130) or not okc:
+                res["violation"] = ("mouse:crash", {"args": list(args), "interaction": [list(e) for e in it], "exit": code, "tail": tail})
+                return res
+            if left or (s.termios0 is not None and after is not None and after != s.termios0):
+                res["violation"] = ("mouse:terminal-not-restored", {"args": list(args), "interaction": [list(e) for e in it], "modes": sorted(left)})
+                return res
+            s.close()
+            s = None
+        return res
+    finally:
+        if s is not None:
+            s.close()
+
+
 GATE_SH = r"""#!/bin/sh
 # usage: child.sh NAME [files...] ; logs, optionally reads {f} files, then waits for the gate or exits
 echo "start $1 $$" >> "$C14_DIR/log"
@@ -295,11 +347,13 @@ def run(c, replay):
         import json
         j = json.load(open(replay))
         job = j["detail"]["job"]
-        fn = {"robustness": robust_job, "keys": keys_job, "exit": exit_job}[j["layer"]]
+        fn = {"robustness": robust_job, "keys": keys_job, "exit": exit_job, "mouse": mouse_job}[j["layer"]]
         if j["layer"] == "robustness":
             job = (job[0], job[1], tuple(job[2]))
         elif j["layer"] == "keys":
             job = [tuple(q) for q in job]
+        elif j["layer"] == "mouse":
+            job = (tuple(job[0]), [tuple(tuple(e) for e in it) for it in job[1]])
         else:
             job = tuple(job)
         sweep.run_jobs(c, j["layer"], fn, [job], deadline_s=120, confirm=1)
@@ -331,6 +385,29 @@ def run(c, replay):
     c.bounds["keys"] = dict(alphabet=[repr(b) for b in KEY_ALPHA], max_len=depth, sequences=len(seqs))
     L = sweep.run_jobs(c, "keys", keys_job, jobs, deadline_s=c.pick(150, 1500),
                        rule="every byte string up to the length over 16 input-decoder symbols written to the pty, liveness probe after each; evaluations = byte strings")
+    # ---- mouse
+    pts = [(x_, y_) for x_ in (1, 3, 40, 78, 79, 80) for y_ in (1, 2, 3, 12, 22, 23, 24)]
+    inters = []
+    for p1 in pts:
+        for p3 in pts:
+            if not c.thorough and (pts.index(p1) + pts.index(p3)) % 3:
+                continue
+            inters.append(((0, p1[0], p1[1], True), (0, p3[0], p3[1], False)))                                   # press, release elsewhere
+            inters.append(((0, p1[0], p1[1], True), (32, p3[0], p3[1], True), (0, p3[0], p3[1], False)))         # press, drag, release
+    for p1 in pts:
+        inters.append(((64, p1[0], p1[1], True),))                                                             # wheel up / down
+        inters.append(((65, p1[0], p1[1], True),))
+        inters.append(((2, p1[0], p1[1], True), (2, p1[0], p1[1], False)))                                     # right click
+        inters.append(((4, p1[0], p1[1], True), (4, p1[0], p1[1], False)))                                     # shift-left click
+        inters.append(((0, p1[0], p1[1], True), (0, p1[0], p1[1], False), (0, p1[0], p1[1], True), (0, p1[0], p1[1], False)))  # double click
+    msets = [(), ("--border",), ("--layout", "reverse", "--border"), ("--preview", "echo {}", "--border"), ("--layout", "reverse-list", "--padding", "1", "--header", "H"),
+             ("--preview", "echo {}", "--preview-window", "up,border-bottom", "--margin", "1")]
+    batch = 40
+    jobs = [(a, inters[i:i + batch]) for a in msets for i in range(0, len(inters), batch)]
+    c.bounds["mouse"] = dict(points=len(pts), interactions=len(inters), option_sets=len(msets))
+    sweep.run_jobs(c, "mouse", mouse_job, jobs, deadline_s=c.pick(120, 900),
+                   rule="SGR mouse interactions on a 24x80 window with a scrollbar (120 lines): press at P1 / optional drag / release at P3 over a 42-point grid that includes borders, "
+                        "the scrollbar column and the rows outside the list, wheel, right / shift / double clicks x 6 option sets; evaluations = interactions")
     # ---- exit hygiene
     jobs = []
     for exit_how in ["accept", "abort", "sigterm", "sigint"]:
